@@ -1,5 +1,5 @@
 (* Correspondence for C09 (uamiv stream): reference codec <-> library, both directions. *)
-From PNC Require Export Base.Util Base.Words Model.Uamiv Model.YearEnd Model.Lbdy Model.One3d Model.TempHp Model.Wind.
+From PNC Require Export Base.Util Base.Words Model.Uamiv Model.YearEnd Model.Lbdy Model.One3d Model.TempHp Model.Wind Model.CloudRain.
 Local Open Scope Z_scope.
 
 Record ucase := Case {
@@ -347,7 +347,60 @@ Definition wcheckS (c : wcase) : bool :=
 Definition wregion (c : wcase) : nat :=
   if wwhole c && (w_nx (wc_c c) * w_ny (wc_c c) =? 1) then 12%nat else 0%nat.
 
+(* Eighth kind of case: cloud/rain files, Model/CloudRain.v *)
+Record ccase := CCase {
+  cc_c : cloudrain; cc_hhmm : list Z; cc_tbl : list (Z * Z); cc_ref : list word; cc_cut : Z;
+  cc_open_ok : bool; cc_view : cview; cc_tflag : list (Z * Z);
+  cc_py_ok : bool; cc_w_ok : bool; cc_written : list word
+}.
+Definition cview_eqb (a b : cview) : bool :=
+  (cv_nx a =? cv_nx b) && (cv_ny a =? cv_ny b) && (cv_nz a =? cv_nz b) && (cv_ntimes a =? cv_ntimes b)
+  && (cv_nvars a =? cv_nvars b) && list_eqb zlll_eqb (cv_data a) (cv_data b).
+Definition cstep_eqb (a b : cstep) : bool :=
+  (cs_time a =? cs_time b) && (cs_date a =? cs_date b) && zlll_eqb (cs_lays a) (cs_lays b).
+Definition cloudrain_eqb (a b : cloudrain) : bool :=
+  zlist_eqb (c_desc a) (c_desc b) && (c_nx a =? c_nx b) && (c_ny a =? c_ny b) && (c_nz a =? c_nz b)
+  && (c_nvars a =? c_nvars b) && list_eqb cstep_eqb (c_steps a) (c_steps b).
+Definition cwhole (c : ccase) : bool := cc_cut c =? 4 * Z.of_nat (length (cc_ref c)).
+(* F: reference encoder == Coq encoder; the reader model (incl. the size-based layout guess) predicts the library; the writer
+   ncf2cloud_rain writes the records of what the reader presented (so a misread file is re-written byte for byte) *)
+Definition ccheckF (c : ccase) : bool :=
+  zlist_eqb (c_enc (cc_c c)) (cc_ref c)
+  && match cr_mm_read (firstn (Z.to_nat ((cc_cut c + 3) / 4)) (cc_ref c)) (cc_cut c) with
+     | Ok v => cc_open_ok c && cview_eqb v (cc_view c)
+               (* TFLAG is pinned whenever the presented time words are time words of the content (a misread layout
+                  presents data words as times: their integer conversion is not modelled) *)
+               && (let known := forallb (fun st => existsb (fun p => fst p =? fst st) (cc_tbl c)) (cv_stamps v) in
+                   (negb known || list_eqb pair_eqb (flags_of (cc_tbl c) (cv_stamps v)) (cc_tflag c))
+                   (* the writer rebuilds the time records from TFLAG: same restriction *)
+                   && (negb (cwhole c) || (cc_w_ok c && (negb known || zlist_eqb (cc_written c) (cc_ref c)))))
+     | Err => negb (cc_open_ok c)
+     end.
+Definition c_spec_flags (c : ccase) : list (Z * Z) := o_spec_tflag (map cs_date (c_steps (cc_c c))) (cc_hhmm c).
+Definition ccheckS (c : ccase) : bool :=
+  if cwhole c then
+    cc_py_ok c && cc_open_ok c && cview_eqb (cc_view c) (c_view_of (cc_c c))
+    && list_eqb pair_eqb (cc_tflag c) (c_spec_flags c) && cc_w_ok c
+    && match c_dec (c_nvars (cc_c c)) (cc_written c) with Some c' => cloudrain_eqb c' (cc_c c) | None => false end
+  else
+    negb (cc_open_ok c)
+    || (let k := Z.to_nat (cv_ntimes (cc_view c)) in
+        cc_py_ok c && (0 <? cv_ntimes (cc_view c)) && (Z.of_nat k <=? Z.of_nat (length (c_steps (cc_c c))))
+        && cview_eqb (cc_view c) (c_view_of (c_truncate_steps k (cc_c c)))
+        && list_eqb pair_eqb (cc_tflag c) (firstn k (c_spec_flags c))).
+(* region 21: a whole 3-field file whose data size is also a whole number of 5-field steps (read as 5-field);
+   region 20: a cut whose data size is a whole number of steps of the OTHER layout but not of the file's own *)
+Definition cregion (c : ccase) : nat :=
+  let cc := cc_c c in
+  if cwhole c then (if c_unambiguous cc then 0%nat else 21%nat)
+  else
+    let ds := cc_cut c - c_hdr_bytes in
+    let other := if c_nvars cc =? 5 then 3 else 5 in
+    if (0 <? ds) && (ds mod c_timesize cc other =? 0)
+       && ((other =? 5) || negb (ds mod c_timesize cc 5 =? 0)) then 20%nat else 0%nat.
+
 Inductive case_t :=
+| CD (c : ccase)
 | WD (c : wcase)
 | TD (c : tcase)
 | HD (c : hcase)
@@ -368,4 +421,5 @@ Definition check (c : case_t) : verdict :=
   | TD c => (tcheckF c, tcheckS c, tregion c)
   | HD c => (hcheckF c, hcheckS c, hregion c)
   | WD c => (wcheckF c, wcheckS c, wregion c)
+  | CD c => (ccheckF c, ccheckS c, cregion c)
   end.
